@@ -952,7 +952,18 @@ class GraphPattern:
             new_nodes = [
                 node.clone(node_map, swap) for node, swap in zip(self._nodes, swap_list)
             ]
-            new_outputs = [v.clone(node_map) for v in self._outputs]
+
+            def clone_output(v: ValuePattern) -> ValuePattern:
+                if isinstance(v, (OpIdDispatchOr, BacktrackingOr)):
+                    # A returned choice-value must be the very object used as a node input
+                    # (GraphPattern requires it to be covered), so reuse that input's copy.
+                    for node, new_node, swap in zip(self._nodes, new_nodes, swap_list):
+                        for index, value in enumerate(node.inputs):
+                            if value is v:
+                                return new_node.inputs[1 - index if swap else index]
+                return v.clone(node_map)
+
+            new_outputs = [clone_output(v) for v in self._outputs]
             return GraphPattern(new_inputs, new_outputs, new_nodes)
 
         return [copy_graph(swap_list) for swap_list in itertools.product(*iteration_space)]
